@@ -4,6 +4,7 @@ package vc
 
 import (
 	"fmt"
+	"sort"
 	"go/constant"
 	"go/token"
 	"go/types"
@@ -454,6 +455,19 @@ func (e *specEnv) quant(n *EQuant) sv {
 	body := inner.term(inner.eval(n.Body, tBool), tBool)
 	rng := "(and " + m.cmp("<=", lo, name, true) + " " + m.cmp("<", name, hi, true) + ")"
 	if n.Forall {
+		// hypotheses about ghost index maps fire only on applications of the map (avoids
+		// matching loops such as perm(inv(perm(...))))
+		var pats []string
+		for _, g := range e.ghost {
+			app := "(" + g + " " + name + ")"
+			if strings.Contains(body, app) {
+				pats = append(pats, ":pattern ("+app+")")
+			}
+		}
+		if len(pats) > 0 {
+			sort.Strings(pats)
+			return sv{Val: Val{t: fmt.Sprintf("(forall ((%s %s)) (! (=> %s %s) %s))", name, m.idxSort(), rng, body, strings.Join(pats, " ")), typ: tBool}}
+		}
 		return sv{Val: Val{t: fmt.Sprintf("(forall ((%s %s)) (=> %s %s))", name, m.idxSort(), rng, body), typ: tBool}}
 	}
 	return sv{Val: Val{t: fmt.Sprintf("(exists ((%s %s)) (and %s %s))", name, m.idxSort(), rng, body), typ: tBool}}
